@@ -21,7 +21,7 @@ RULE = ("valid generated queries (all selector kinds, slices with omitted parts,
         "reference semantics of the AST that the recogniser assigns to t equals the real result of q (so t means the same under the RFC, "
         "not merely under the same parser); (5) every string literal in the parse tree of t is single-quoted and spelled exactly as the "
         "normalized form of its decoded value. Non-trivial: q contains a filter with a logical operator, negation or parentheses, or a "
-        "name/literal needing an escape, or a non-default number spelling; distinct by q's text.")
+        "name/literal needing an escape, or a non-default number spelling; distinct by q's text. A concurrent part lets 4-8 threads call str() and hash() on the same 12 compiled queries at the same time (GIL hand-offs injected on package lines); every text equals the sequential one.")
 ASSUMPTIONS = ["strict ABNF transcription and reference semantics (vf/oracle) define 'valid' and 'selects the same nodes'",
                "equivalence on *every* value is sampled by 4 planted documents per query plus structural AST comparison modulo redundant parentheses, and/or re-association and numeric spelling"]
 DECIDING_MONITORS = ["M-str"]
@@ -122,12 +122,71 @@ def interesting(q, text, feat_delta):
 def plan(tier, seed, nproc, scale):
     shards = nproc if tier == "quick" else nproc * 4
     n = int((24000 if tier == "quick" else 400000) * scale)
-    return [{"kind": "random", "seed": "%d/%d" % (seed, i), "n": n // shards} for i in range(shards)]
+    specs = [{"kind": "random", "seed": "%d/%d" % (seed, i), "n": n // shards} for i in range(shards)]
+    specs += [{"kind": "threads", "seed": "%d/t%d" % (seed, i), "runs": 2 if tier == "quick" else 30} for i in range(4 if tier == "quick" else shards)]
+    return specs
+
+
+def thread_part(jp, rec, R, spec):
+    """Several threads serialise the SAME compiled queries at the same time (str, repr-free: str() and hash()), with GIL
+    hand-offs injected on lines of the package: every text equals the one produced sequentially."""
+    from ..threads import run_threads
+    for run in range(spec["runs"]):
+        cfg = G.Cfg(filters=True, regex_functions=True, max_depth=3)
+        gen = G.QGen(R, cfg)
+        compiled = []
+        while len(compiled) < 12:
+            q = ("q", "$", (("child", (("filter", gen.expr(1)),)),) + ((gen.segment(1),) if R.random() < 0.5 else ()))
+            if not G.representable(q):
+                continue
+            text = G.render(q, R, ws="none")
+            try:
+                compiled.append(jp.compile(text))
+            except Exception:  # noqa: BLE001
+                continue
+        want = [str(c) for c in compiled]
+        nthreads = R.choice([4, 6, 8])
+        got = [[] for _ in range(nthreads)]
+        orders = [R.sample(range(len(compiled)), len(compiled)) for _ in range(nthreads)]
+
+        def work(k):
+            for rep in range(3):
+                for ci in orders[k]:
+                    got[k].append((ci, str(compiled[ci])))
+                    hash(compiled[ci])
+        hung, switches, sites, errors = run_threads(jp, "%s/%d" % (spec["seed"], run), nthreads, work, R.choice([0.05, 0.2, 0.5]))
+        if hung:
+            rec.timeout("thread run %d did not finish" % run)
+            continue
+        rec.feat("thread-runs")
+        rec.feat("thread-switches-inside-package", switches)
+        rec.case(("threads", spec["seed"], run), switches > 0)
+        for k_, name, msg in errors:
+            rec.violation("concurrent-str-raises-" + name, {"thread": k_, "message": msg})
+        bad = None
+        for k in range(nthreads):
+            for ci, text in got[k]:
+                rec.monitor("M-str")
+                if text != want[ci] and bad is None:
+                    bad = {"str_observed_concurrently": text, "str_sequential": want[ci], "threads": nthreads, "switches_inside_package": switches}
+        if bad:
+            rec.violation("concurrent-str-differs", bad)
+
+
+def finish(m, tier):
+    sw = m["features"].get("thread-switches-inside-package", 0)
+    m["extra"]["thread_switches_inside_package"] = sw
+    if m["features"].get("thread-runs", 0) and sw == 0:
+        return ["the concurrent part observed no thread switch inside package code"]
+    return []
 
 
 def run_shard(spec, rec):
     import jsonpath_rfc9535 as jp
     R = random.Random(spec["seed"])
+    if spec.get("kind") == "threads":
+        thread_part(jp, rec, R, spec)
+        return
     for _ in range(spec["n"]):
         cfg = G.Cfg(filters=True, regex_functions=True, max_depth=R.choice([2, 3, 4]), big_ints=R.random() < 0.2)
         gen = G.QGen(R, cfg)
@@ -137,7 +196,7 @@ def run_shard(spec, rec):
         before = sum(v for k, v in rec.features.items() if k.startswith("str:") and k != "str:raw" or k.startswith("num:") and k not in ("num:int", "num:float"))
         text = G.render(q, R, feat=rec.features)
         after = sum(v for k, v in rec.features.items() if k.startswith("str:") and k != "str:raw" or k.startswith("num:") and k not in ("num:int", "num:float"))
-        docs = [D.doc_for(R, q, maxdepth=3, maxwidth=4, shapes=0.01) for _ in range(4)]
+        docs = [D.doc_for(R, q, maxdepth=3, maxwidth=4, shapes=0) for _ in range(4)]
         rec.wal({"query": text})
         try:
             with guard(60):
